@@ -3289,7 +3289,14 @@ class TLSConnection(TLSRecordLayer):
                 valid_sig_algs = self._sigHashesToList(
                     cr_settings,
                     version=self.version)
-                assert valid_sig_algs
+                if not valid_sig_algs:
+                    # nothing the client could sign its CertificateVerify
+                    # with: tell it, rather than die on an assertion
+                    for result in self._sendError(
+                            AlertDescription.internal_error,
+                            "No signature algorithms enabled for the "
+                            "TLS 1.3 CertificateRequest"):
+                        yield result
 
                 extensions = []
                 if self.version >= (3, 4):
